@@ -58,7 +58,14 @@ def categorise(world, rows, profile):
     for b in world["baseline"]:
         key = (b["postal_code"], b["geographic_unit_fips"])
         f = feed.get(key)
-        if f is None:
+        if f is not None and _missing_requested(f, est):
+            # a feed row that lacks the value of a requested estimand: 'drop' drops the unit from the modelled data (its
+            # other counts then travel as an unexpected unit, see below), 'zero' zeroes what is missing and its percent
+            if policy == "drop":
+                continue
+            f = dict(f, percent_expected_vote=0, **{c: (0 if f.get(c) is None else f[c]) for c in ("results_dem", "results_gop", "results_turnout")})
+            live_missing = True
+        elif f is None:
             if policy == "drop":
                 continue
             f = dict(percent_expected_vote=0, results_dem=0, results_gop=0, results_turnout=0)
@@ -117,7 +124,8 @@ def categorise(world, rows, profile):
             county = comps[1] if (district_type and len(comps) > 1) else comps[0]
         if "district" in aggs:
             district = comps[0]
-        two = r["results_dem"] + r["results_gop"]
+        partial = any(r.get(c) is None for c in ("results_dem", "results_gop", "results_turnout"))
+        two = (r["results_dem"] + r["results_gop"]) if (r["results_dem"] is not None and r["results_gop"] is not None) else None
         rw = two if wm == "twoparty" else r["results_turnout"]
         units[fips] = dict(
             category="unexpected",
@@ -131,8 +139,8 @@ def categorise(world, rows, profile):
             weights=rw,
             baseline_weights=None,
             tf=None,
-            margin=r["results_dem"] - r["results_gop"],
-            norm_margin=((r["results_dem"] - r["results_gop"]) / two) if two else 0.0,
+            margin=(r["results_dem"] - r["results_gop"]) if two is not None else None,
+            norm_margin=(((r["results_dem"] - r["results_gop"]) / two) if two else 0.0) if two is not None else None,
             postal_code=r["postal_code"],
             county_fips=county,
             district=district,
@@ -147,9 +155,18 @@ def categorise(world, rows, profile):
 
 
 def counted(u, estimand):
+    """Counted value of one unit for one estimand; None when the feed row lacks it."""
     if estimand == "margin":
         return u["margin"]
     return u[estimand]
+
+
+def _missing_requested(f, est):
+    for e in est:
+        cols = ("results_dem", "results_gop") if e == "margin" else (f"results_{e}",)
+        if any(f.get(c) is None for c in cols):
+            return True
+    return False
 
 
 def ledger(world, units, agg, estimands, flagged=()):
@@ -175,7 +192,7 @@ def ledger(world, units, agg, estimands, flagged=()):
                  nonreporting=[], other=[]),
         )
         for e in estimands:
-            g["counted"][e] += counted(u, e)
+            g["counted"][e] += counted(u, e) or 0
         if modelled and u["reporting"]:
             g["n_reporting"] += 1
             g["reporting"].append(fips)
